@@ -373,7 +373,7 @@ impl Compiled for AST {
             AST::Array { size, value } => {
                 match value.deref() {
                     AST::Boolean(_) | AST::Integer(_) | AST::Null |
-                    AST::AccessVariable { name:_ } | AST::AccessField { object:_, field:_ } => {
+                    AST::AccessVariable { name:_ } => {
                         size.deref().compile_into(program, active_buffer, global_environment, current_frame, true)?;
                         value.deref().compile_into(program, active_buffer, global_environment, current_frame, true)?;
                         active_buffer.emit(OpCode::Array);
